@@ -602,8 +602,17 @@ class SimNet:
         self.connect_successes = []
         self.send_tap = None
         self.created = []  # sockets created through the socket-module proxy
+        self.reuse_fds = False  # set True to hand out closed sockets' fd numbers again
 
     def _alloc_fd(self):
+        if self.reuse_fds:
+            # like the kernel: the lowest free descriptor number (a closed socket's number
+            # is handed out again), so stale per-fd bookkeeping in the code under test shows
+            fd = 101
+            used = self.sockets
+            while fd in used:
+                fd += 1
+            return fd
         self._next_fd += 1
         return self._next_fd
 
